@@ -7,7 +7,7 @@ from __future__ import annotations
 
 from typing import TYPE_CHECKING, Generator, cast
 
-from exabgp.bgp.message import Message, Update
+from exabgp.bgp.message import Message, Update, UpdateCollection
 from exabgp.environment import getenv
 from exabgp.logger import lazyformat, lazymsg, log
 from exabgp.reactor.peer.handlers.base import MessageHandler
@@ -73,6 +73,9 @@ class UpdateHandler(MessageHandler):
 
         Stores all NLRIs in the incoming RIB cache.
         """
+        # End-of-RIB markers and the placeholder returned for unparsed UPDATEs share the type but hold no routes
+        if getattr(message, 'IS_EOR', False) is True or isinstance(message, UpdateCollection):
+            return
         update = cast(Update, message)
         parsed = update.data  # Already parsed by unpack_message
         self._number += 1
@@ -110,6 +113,9 @@ class UpdateHandler(MessageHandler):
 
         Same logic as sync - no async I/O needed for inbound processing.
         """
+        # End-of-RIB markers and the placeholder returned for unparsed UPDATEs share the type but hold no routes
+        if getattr(message, 'IS_EOR', False) is True or isinstance(message, UpdateCollection):
+            return
         update = cast(Update, message)
         parsed = update.data  # Already parsed by unpack_message
         self._number += 1
